@@ -547,17 +547,18 @@ Definition arg_fromJson (v : variant) (p : ident) (j : json) : option argmeta :=
 Definition k_toJson (v : variant) (k : kmeta) : json :=
   jset "arguments" (JArr (map (arg_toJson v) (k_args k))) (jset "name" (JStr (k_name k)) JNone).
 
+Fixpoint args_loop (v : variant) (p : ident) (i : Z) (l : list json) : option (list argmeta) :=
+  match l with
+  | [] => Some []
+  | aj :: r =>
+      match arg_fromJson v (p ++ [i])%list aj, args_loop v p (i + 1) r with
+      | Some a, Some rest => Some (a :: rest)
+      | _, _ => None
+      end
+  end.
+
 Definition k_fromJson (v : variant) (p : ident) (j : json) : option kmeta :=
-  match
-    (fix go (i : Z) (l : list json) : option (list argmeta) :=
-       match l with
-       | [] => Some []
-       | aj :: r =>
-           match arg_fromJson v (p ++ [i])%list aj, go (i + 1) r with
-           | Some a, Some rest => Some (a :: rest)
-           | _, _ => None
-           end
-       end) 0 (j_array (jget "arguments" j))
+  match args_loop v p 0 (j_array (jget "arguments" j))
   with
   | Some args => Some (mkK (j_toString (jget "name" j)) args)
   | None => None
